@@ -45,24 +45,28 @@ def generate(X):
         f, h = handled[name]
         params, never, targets, raises_only = TR.handler_static(h)
         dropped = TR.static_dropped(f, h)
+        sf = TR.static_forward(f, h)
         statics.append(dict(implements=name, handler=h.__name__, params=params, raises_only=raises_only,
-                            static_calls=targets, static_dropped=dropped))
+                            static_calls=targets, static_dropped=dropped, fwd=sf, by_value_seen={}))
 
     # ---------------------------------------------------------------- dynamic traces
     rows = {}
     order = []
     groups = {}
     gorder = []
+    seen = {}
     for t in C.templates("function"):
         name = C.canonical_func(t)
         if name not in handled:
             continue
         for sc in t.shapes:
             for dk in t.dtypes:
-                for om in (("unyt", "bare") if t.out_form else ("unyt",)):
-                    r = TR.trace_case(t, dk, sc, 0, om)
+                for om, dseed in [(o, d) for o in (("unyt", "bare") if t.out_form else ("unyt",)) for d in (0, 1)]:
+                    r = TR.trace_case(t, dk, sc, dseed, om)
                     if r is None or not r["entered"] or r["entered"][0] != name:
                         continue
+                    for bp, bval in r.get("by_value_vals", []):
+                        seen.setdefault((name, bp), set()).add(bval)
                     raised = r["outcome"] != "ok"
                     g = (name, t.variant, r["sig"])
                     if g not in groups:
@@ -72,7 +76,7 @@ def generate(X):
                         groups[g].setdefault("raised-before-call", 0)
                         groups[g]["raised-before-call"] += 1
                         continue
-                    fk = (tuple(r["calls"]), tuple(r["params"]))
+                    fk = (tuple(r["calls"]), tuple(r["params"]), tuple(r["by_value"]))
                     e = groups[g].setdefault(fk, {"n": 0, "ok": 0, "post": "none"})
                     e["n"] += 1
                     if not raised:
@@ -82,32 +86,45 @@ def generate(X):
     for g in gorder:
         recs = [(fk, e) for fk, e in groups[g].items() if fk != "raised-before-call"]
         if not recs:
-            key = (g[0], g[1], g[2], True, (), (), "none")
+            key = (g[0], g[1], g[2], True, (), (), (), "none")
             rows[key] = groups[g]["raised-before-call"]
             order.append(key)
             continue
         for fk, e in recs:
-            key = (g[0], g[1], g[2], e["ok"] == 0, fk[0], fk[1], e["post"])
+            key = (g[0], g[1], g[2], e["ok"] == 0, fk[0], fk[1], fk[2], e["post"])
             rows[key] = e["n"]
             order.append(key)
 
     def lrow(k):
-        name, variant, sig, raised, calls, params, post = k
+        name, variant, sig, raised, calls, params, byv, post = k
         cs = ", ".join(f"({'true' if via == 'impl' else 'false'}, {L(tg)})" for via, tg in calls)
         ps = ", ".join(f"({L(p)}, .{v})" for p, v in params)
-        return (f"  ⟨{L(name)}, {L(variant)}, {L(sig)}, {'true' if raised else 'false'}, [{cs}], [{ps}], .{post}⟩")
+        bv = ", ".join(L(p) for p in byv)
+        return (f"  ⟨{L(name)}, {L(variant)}, {L(sig)}, {'true' if raised else 'false'}, [{cs}], [{ps}], [{bv}], .{post}⟩")
+
+    def ll(xs):
+        return "[" + ", ".join(L(x) for x in xs) + "]"
 
     def lstatic(s):
         ps = ", ".join(f"({L(p)}, {L(k)})" for p, k in s["params"])
-        return (f"  ⟨{L(s['implements'])}, {L(s['handler'])}, [{ps}], {'true' if s['raises_only'] else 'false'}, "
-                f"[{', '.join(L(x) for x in s['static_calls'])}], [{', '.join(L(x) for x in s['static_dropped'])}]⟩")
+        f = s["fwd"]
+        seen_l = ", ".join(f"({L(p)}, {n})" for p, n in sorted(s["by_value_seen"].items()))
+        return (f"⟨{L(s['implements'])}, {L(s['handler'])}, [{ps}], {'true' if s['raises_only'] else 'false'}, "
+                f"{ll(s['static_calls'])}, {ll(s['static_dropped'])}, {ll(f['direct'])}, {ll(f['derived'])}, "
+                f"{'true' if f['star_pos'] else 'false'}, {'true' if f['star_kw'] else 'false'}, {ll(f['named'])}, {ll(f['crossed'])}, [{seen_l}]⟩")
 
-    nchunk = 4
-    per = (len(order) + nchunk - 1) // nchunk
-    chunks = []
-    for i in range(nchunk):
-        part = order[i * per:(i + 1) * per]
-        chunks.append(f"def traceRows{i} : List Np.Row := [\n" + ",\n".join(lrow(k) for k in part) + "\n]\n")
+    for s_ in statics:
+        s_["by_value_seen"] = {p: len(v) for (fn, p), v in seen.items() if fn == s_["implements"]}
+    by_func = {}
+    for k in order:
+        by_func.setdefault(k[0], []).append(k)
+    groups_txt = []
+    names = []
+    for i, s_ in enumerate(statics):
+        part = by_func.get(s_["implements"], [])
+        groups_txt.append(f"def hstatic{i} : Np.HandlerStatic :=\n  {lstatic(s_)}\n"
+                          f"def hrows{i} : List Np.Row := [\n" + ",\n".join(lrow(k) for k in part) + "\n]\n")
+        names.append(f"(hstatic{i}, hrows{i})")
     text = (
         X.header("UnytModel.NpHandlers")
         + "namespace Unyt.Generated\nopen Unyt.Np\n\n"
@@ -117,11 +134,12 @@ def generate(X):
         + "def npUnsupported : List String := [" + ", ".join(L(k) for k in unsupported) + "]\n\n"
         + "/-- keys of `_HANDLED_FUNCTIONS` -/\n"
         + "def npHandled : List String := [" + ", ".join(L(k) for k in sorted(handled)) + "]\n\n"
-        + "/-- ast pass over every handler -/\n"
-        + "def handlerStatics : List Np.HandlerStatic := [\n" + ",\n".join(lstatic(s) for s in statics) + "\n]\n\n"
-        + "/-- dynamic trace: handler × catalogue template (distinct records), in chunks -/\n"
-        + "\n".join(chunks)
-        + "\ndef traceRows : List Np.Row := " + " ++ ".join(f"traceRows{i}" for i in range(nchunk)) + "\n"
+        + "/-- per handler: the ast pass (incl. the static provenance column) and the dynamic trace rows\n"
+        + "    (handler × catalogue template, distinct records over data seeds 0 and 1) -/\n"
+        + "\n".join(groups_txt)
+        + "\ndef handlerTable : List (Np.HandlerStatic × List Np.Row) := [\n  " + ",\n  ".join(names) + "\n]\n"
+        + "\ndef handlerStatics : List Np.HandlerStatic := handlerTable.map (·.1)\n"
+        + "\ndef traceRows : List Np.Row := handlerTable.flatMap (·.2)\n"
         + "\nend Unyt.Generated\n"
     )
     X.write_if_changed(os.path.join(X.GEN, "Handlers.lean"), text)
@@ -130,5 +148,5 @@ def generate(X):
         "unsupported": unsupported,
         "handled": sorted(handled),
         "statics": statics,
-        "rows": [dict(func=k[0], variant=k[1], sig=k[2], raised=k[3], calls=list(k[4]), params=list(k[5]), post=k[6], n=rows[k]) for k in order],
+        "rows": [dict(func=k[0], variant=k[1], sig=k[2], raised=k[3], calls=list(k[4]), params=list(k[5]), by_value=list(k[6]), post=k[7], n=rows[k]) for k in order],
     }
